@@ -241,3 +241,52 @@ Example C10_estime_nonvacuous :
   parse_es [50;48;50;54;45;48;50;45;51;48;32;48;48;58;48;48;58;48;48]%N = Some 1772409600000000000%Z /\
   parse_es [50;48;50;54;45;49;51;45;48;49;32;48;48;58;48;48;58;48;48]%N = None.
 Proof. repeat split; vm_compute; reflexivity. Qed.
+
+(* ------------------------------------------------------------------ generated definitions (Gen.v)
+   Gen.v is regenerated from the Go sources on every run by harness/cmd/go2coq (spec: props/C10/gen.json,
+   trusted extern: GenPrelude.v). The theorems below tie the GENERATED definitions to the hand-written model
+   functions the theorems above are about: a change of one of these Go functions changes Gen.v and the
+   corresponding theorem stops compiling. *)
+From Coq Require Import ZArith.
+From C10 Require Import GenPrelude Gen ProofsGen.
+
+(* documentDelayed as generated = delayed (C10_time_rule, C10_time_rule_boundaries are about it), on all integers *)
+Theorem C10_gen_documentDelayed_refines : forall delay drift fdrift,
+  go_bulk_documentDelayed delay drift fdrift = delayed delay drift fdrift.
+Proof. exact gen_documentDelayed_refines. Qed.
+Print Assumptions C10_gen_documentDelayed_refines.
+
+(* seq.TimeToMID as generated = mid_of (C10_mid_ms is about it), for every instant *)
+Theorem C10_gen_TimeToMID_refines : forall t, go_seq_TimeToMID t = mid_of t.
+Proof. exact gen_TimeToMID_refines. Qed.
+Print Assumptions C10_gen_TimeToMID_refines.
+
+(* C10_time_rule directly over the GENERATED documentDelayed: the instant put into the ID is the document's
+   own time iff -futureDrift <= now - t <= drift *)
+Theorem C10_time_rule_gen : forall now drift fdrift t, (0 <= drift < max64)%Z -> (0 <= fdrift <= max64)%Z ->
+  (if go_bulk_documentDelayed (sat64 (now - t)) drift fdrift then now else t) = spec_time now drift fdrift (Some t).
+Proof. exact time_rule_gen. Qed.
+Print Assumptions C10_time_rule_gen.
+
+(* C10_mid_ms directly over the GENERATED TimeToMID *)
+Theorem C10_mid_ms_gen : forall t, (0 <= t <= max64)%Z -> go_seq_TimeToMID t = ms_of t.
+Proof. exact mid_ms_gen. Qed.
+Print Assumptions C10_mid_ms_gen.
+
+Theorem C10_gen_DurationToMID_spec : forall d, (0 <= d < 9223372036854775808)%Z -> go_seq_DurationToMID d = (d / 1000000)%Z.
+Proof. exact gen_DurationToMID_spec. Qed.
+Print Assumptions C10_gen_DurationToMID_spec.
+
+Theorem C10_gen_MIDToDuration_spec : forall m, (0 <= m)%Z -> (m * 1000000 < 9223372036854775808)%Z ->
+  go_seq_MIDToDuration m = (m * 1000000)%Z.
+Proof. exact gen_MIDToDuration_spec. Qed.
+Print Assumptions C10_gen_MIDToDuration_spec.
+
+(* non-vacuity *)
+Example C10_gen_witness :
+  go_bulk_documentDelayed 5 4 0 = true /\ go_bulk_documentDelayed 4 4 0 = false /\
+  go_bulk_documentDelayed (-9223372036854775808) 4 9223372036854775807 = true /\
+  go_bulk_documentDelayed (-7) 4 7 = false /\
+  go_seq_TimeToMID 1700000000123456789 = 1700000000123%Z /\
+  go_seq_TimeToMID (-1) = 0%Z /\ go_seq_TimeToMID (-1000000) = 18446744073709551615%Z.
+Proof. vm_compute. repeat split; reflexivity. Qed.
